@@ -777,6 +777,7 @@ Proof.
       - simpl in Ho. discriminate.
       - eapply op_get_mono; eauto; lia.
       - eapply op_copy_mono; eauto; lia.
+      - simpl in Ho. discriminate.
       - simpl in Ho. discriminate. }
     destruct M1 as (A1 & B1 & _ & D1).
     pose proof (run_ops_mono r fr1 (f_end fr1) ltac:(congruence) ltac:(congruence) ltac:(lia) Hr _ _ R2) as (_ & B2 & _).
@@ -788,6 +789,7 @@ Proof.
       - simpl in Ho. discriminate.
       - destruct (step_get _ _ _ _ _ PR _ _ R1) as (X & _). eauto.
       - eapply step_copy; eauto. lia.
+      - simpl in Ho. discriminate.
       - simpl in Ho. discriminate. }
     destruct PR1 as (T1 & PR1). rewrite apply_log_app. eapply IH; eauto.
 Qed.
